@@ -4,7 +4,8 @@ export GOFLAGS=-mod=mod GOPROXY=off GOSUMDB=off GOTOOLCHAIN=local GOWORK=off
 cd /repo && go build ./pkg/... >/dev/null 2>&1
 cd /verif && python3 - <<'PY'
 import json,subprocess,os
-reg=json.load(open('/verif/checks.json'))
+import glob
+reg={os.path.basename(f)[:-5] for f in glob.glob('/verif/checks.d/*.json')}
 for pid in reg:
     r=subprocess.run(['/verif/check',pid,'--build-only'],capture_output=True,text=True)
     print(pid,'build','ok' if r.returncode==0 else 'FAILED')
